@@ -378,12 +378,21 @@ func (l *BasicLifecycler) waitStableTokens(ctx context.Context, period time.Dura
 	level.Info(l.logger).Log("msg", "waiting stable tokens", "ring", l.ringName)
 	observeChan := time.After(period)
 
+	// The tokens to verify are the ones this instance has written to the ring. They are remembered here
+	// because each heartbeat refreshes the local copy of the instance from the ring, tokens included:
+	// comparing against that copy would hide a token lost before the heartbeat.
+	expectedTokens := l.GetTokens()
+
 	for {
 		select {
 		case <-observeChan:
-			if !l.verifyTokens(ctx) {
+			ok, writtenTokens := l.verifyTokens(ctx, expectedTokens)
+			if !ok {
 				// The verification has failed
 				level.Info(l.logger).Log("msg", "tokens verification failed, keep observing", "ring", l.ringName)
+				if writtenTokens != nil {
+					expectedTokens = writtenTokens
+				}
 				observeChan = time.After(period)
 				break
 			}
@@ -403,14 +412,17 @@ func (l *BasicLifecycler) waitStableTokens(ctx context.Context, period time.Dura
 // Verifies that tokens that this instance has registered to the ring still belong to it.
 // Gossiping ring may change the ownership of tokens in case of conflicts.
 // If instance doesn't own its tokens anymore, this method generates new tokens and stores them to the ring.
-func (l *BasicLifecycler) verifyTokens(ctx context.Context) bool {
+// expectedTokens are the tokens this instance has written to the ring; when the verification fails, the tokens
+// written instead are returned (nil if nothing could be written).
+func (l *BasicLifecycler) verifyTokens(ctx context.Context, expectedTokens Tokens) (bool, Tokens) {
 	result := false
+	var writtenTokens Tokens
 
 	err := l.updateInstance(ctx, func(r *Desc, i *InstanceDesc) bool {
 		// At this point, we should have the same tokens as we have registered before.
 		actualTokens, takenTokens := r.TokensFor(l.cfg.ID)
 
-		if actualTokens.Equals(l.GetTokens()) {
+		if actualTokens.Equals(expectedTokens) {
 			// Tokens have been verified. No need to change them.
 			result = true
 			return false
@@ -426,15 +438,16 @@ func (l *BasicLifecycler) verifyTokens(ctx context.Context) bool {
 		sort.Sort(actualTokens)
 
 		i.Tokens = actualTokens
+		writtenTokens = actualTokens
 		return true
 	})
 
 	if err != nil {
 		level.Error(l.logger).Log("msg", "failed to verify tokens", "ring", l.ringName, "err", err)
-		return false
+		return false, nil
 	}
 
-	return result
+	return result, writtenTokens
 }
 
 // unregister removes our entry from the store.
